@@ -28,10 +28,11 @@ ASSUMPTIONS = [
 BUDGET = {"quick": 60, "thorough": 500}
 ROUNDS = {"thorough": 10}
 FLOORS = {"loads": {"quick": 1500, "thorough": 15000}, "expected_reject": 400, "expected_accept": 400, "graph_walks": 300,
-          "sharing_updates": 150, "factory_round_trips": 60, "faults": 11, "loads_through_main": 100}
+          "sharing_updates": 150, "factory_round_trips": 60, "faults": 15, "loads_through_main": 100}
 
 FAULTS = ["none", "none", "dup-sibling", "dup-cousin", "dup-ancestor", "dup-toplevel", "dup-taxon-parameter", "dangling", "forward",
-          "range-missing", "range-ok", "comments", "ignored", "plate", "nested-plate", "ignored-plate"]
+          "range-missing", "range-ok", "comments", "ignored", "plate", "nested-plate", "ignored-plate",
+          "group", "datatype-dangling", "datatype-ok", "shared-transform-argument"]
 
 
 def cases(tier, seed):
@@ -144,7 +145,7 @@ def parents(top):
 
 
 # ---------------------------------------------------------------- reference interpreter
-REF_SLOTS = {"ViewParameter": ["parameter"], "TransformedParameter": ["x"], "CatParameter": ["parameters"], "Distribution": ["x", "parameters"],
+REF_SLOTS = {"Alignment": ["datatype", "taxa"], "ViewParameter": ["parameter"], "TransformedParameter": ["x", "parameters"], "CatParameter": ["parameters"], "Distribution": ["x", "parameters"],
              "JointDistributionModel": ["distributions"], "Taxa": ["taxa"]}
 
 
@@ -165,6 +166,8 @@ def interpret(top):
                 for i in range(int(a), int(b)):
                     if stem + str(i) not in defined:
                         raise Reject("undefined reference %s%d" % (stem, i))
+            elif v == "nucleotide":
+                pass  # the built-in nucleotide data type does not have to be defined
             elif v not in defined:
                 raise Reject("undefined reference " + v)
         elif isinstance(v, dict) and "id" in v and "type" in v:
@@ -187,7 +190,10 @@ def interpret(top):
 
     try:
         for t in top:
-            obj(t)
+            if isinstance(t, list):  # a group of objects in the top-level list: built member by member
+                value(t)
+            else:
+                obj(t)
     except Reject as r:
         return "REJECT", str(r)
     return "ACCEPT", None
@@ -435,11 +441,67 @@ def run_case(case):
     elif fault in ("comments", "ignored"):
         top = add_noise(top, rng, fault)
         effective = clean
+    elif fault == "group":
+        # top-level elements collected into groups (lists that are entries of the top-level list); inside a group a switched-off
+        # alternative that reuses the id of the active object, and comment keys: neither has any effect
+        decorated = add_noise(top, rng, "comments")
+        grouped = []
+        i = 0
+        while i < len(decorated):
+            k = int(rng.integers(1, 3))
+            members = decorated[i:i + k]
+            i += k
+            if rng.random() < 0.7:
+                m0 = members[int(rng.integers(len(members)))]
+                off = {"id": m0["id"], "type": "Parameter", "tensor": [7.0], "ignore": True, "_note": "the old " + m0["id"]}
+                members.insert(int(rng.integers(len(members) + 1)), off)
+                if rng.random() < 0.5:
+                    members.append({"id": "grp.off.%d" % i, "type": "Nonexistent", "ignore": True})
+                grouped.append(members)
+            else:
+                grouped.extend(members)
+        if not any(isinstance(x, list) for x in grouped):
+            grouped = [grouped[:1] + [{"id": grouped[0]["id"], "type": "Parameter", "tensor": [7.0], "ignore": True}]] + grouped[1:]
+        top = grouped
+        effective = clean
+    elif fault in ("datatype-dangling", "datatype-ok"):
+        # an alignment refers to its data type by id: a defined one (or the built-in literal 'nucleotide') is the shared object, an
+        # undefined one is a dangling reference
+        how = ["literal", "defined", "inline"][case["seed"] % 3] if fault == "datatype-ok" else ["undefined", "later"][case["seed"] % 2]
+        dt = {"id": "dt1", "type": "GeneralDataType", "codes": ["a", "b"]}
+        taxa = {"id": "taxa", "type": "Taxa", "taxa": [{"id": "A", "type": "Taxon"}, {"id": "B", "type": "Taxon"}]}
+        aln = {"id": "aln", "type": "Alignment", "taxa": "taxa", "datatype": "dt1",
+               "sequences": [{"taxon": "A", "sequence": "abab"}, {"taxon": "B", "sequence": "abba"}]}
+        if how == "literal":
+            aln["datatype"] = "nucleotide"
+            aln["sequences"] = [{"taxon": "A", "sequence": "ACGT"}, {"taxon": "B", "sequence": "ACGA"}]
+            top = top + [taxa, aln]
+        elif how == "defined":
+            top = top + [dt, taxa, aln]
+        elif how == "inline":
+            aln["datatype"] = dt
+            top = top + [taxa, aln]
+        elif how == "undefined":
+            aln["datatype"] = "dt.typo"
+            top = top + [dt, taxa, aln]
+        else:
+            top = top + [taxa, aln, dt]  # defined only later in the file
+        effective = top
+    elif fault == "shared-transform-argument":
+        # the argument of a parametric transform is a reference to a parameter that something else (its prior) holds too
+        jt = [d for t in top for d in walk_defs(t) if d["id"] == jid][0]
+        top.insert(0, {"id": "pw1", "type": "Parameter", "tensor": [0.3, 0.7]})
+        jt["distributions"].append({"id": "dw1", "type": "Distribution", "distribution": "torch.distributions.Normal", "x": "pw1", "parameters": {"loc": 0.5, "scale": 1.0}})
+        jt["distributions"].append({"id": "dcc1", "type": "Distribution", "distribution": "torch.distributions.Normal",
+                                    "x": {"id": "cc1", "type": "TransformedParameter", "transform": "ConvexCombinationTransform", "parameters": {"weights": "pw1"},
+                                          "x": {"id": "scc1", "type": "Parameter", "tensor": [1.2, 0.8]}},
+                                    "parameters": {"loc": 0.0, "scale": 1.0}})
+        effective = top
     else:
         top, _ = inject(fault, top, rng)
         effective = top
     expected, why = interpret(copy.deepcopy(effective))
-    through_main = fault in ("comments", "ignored", "plate", "nested-plate", "ignored-plate") and case["seed"] % 2 == 0
+    through_main = fault in ("comments", "ignored", "plate", "nested-plate", "ignored-plate", "group") and case["seed"] % 2 == 0
     if through_main:
         C["loads_through_main"] = 1
     got, payload = load_through_main(top) if through_main else load_as_main(top)
@@ -474,7 +536,7 @@ def run_case(case):
         if missing or extra:
             V.append(tt.viol("C13:registry-content:%s" % fault, "registry ids differ from the defined ids: missing %s extra %s" % (sorted(missing)[:5], sorted(extra)[:5]), **detail))
         val = tt.as_np(dic[jid](), "C13:not-a-tensor").sum()
-        if fault in ("comments", "ignored", "plate"):
+        if fault in ("comments", "ignored", "plate", "group"):
             _, dic2 = tt.load(effective)
             val2 = tt.as_np(dic2[jid](), "C13:not-a-tensor").sum()
             C["noise_comparisons"] += 1
@@ -496,6 +558,24 @@ def run_case(case):
             C["sharing_updates"] += 1
             if abs(v1 - v2) > 1e-9 * max(1.0, abs(v2)):
                 V.append(tt.viol("C13:update-not-shared", "after updating %s through the registry the joint is %.12g, a rebuilt specification gives %.12g" % (pid, v1, v2), updated=pid, **detail))
+        if fault == "shared-transform-argument" and not V:
+            neww = rng.dirichlet([2.0, 2.0]).round(4)
+            dic["pw1"].tensor = torch.tensor(neww, dtype=dic["pw1"].tensor.dtype)
+            v1 = tt.as_np(dic[jid](), "C13:not-a-tensor").sum()
+            rebuilt = copy.deepcopy(effective)
+            for d in (x for t in rebuilt for x in walk_defs(t)):
+                if d["type"] == "Parameter" and "tensor" in d and d["id"] in dic:
+                    d["tensor"] = dic[d["id"]].tensor.detach().tolist()
+            _, dic5 = tt.load(rebuilt)
+            v2 = tt.as_np(dic5[jid](), "C13:not-a-tensor").sum()
+            C["sharing_updates"] += 1
+            C["sharing_updates_transform_arguments"] = 1
+            if abs(v1 - v2) > 1e-9 * max(1.0, abs(v2)):
+                V.append(tt.viol("C13:update-of-transform-argument-not-shared", "after updating pw1 (held by its prior and, as `weights`, by the transform of cc1) the joint is %.12g, a rebuilt specification gives %.12g" % (v1, v2), updated="pw1", **detail))
+        if fault in ("datatype-ok",) and not V and "dt1" in dic:
+            C["datatype_identity_checks"] = 1
+            if dic["aln"].data_type is not dic["dt1"]:
+                V.append(tt.viol("C13:id-not-unique-instance", "the alignment's data type is not the registry object dt1", **detail))
         # the same through another holder of an id: a view onto a plain parameter is assigned, every other holder of that parameter sees it
         views = [d for t in effective for d in walk_defs(t) if d["type"] == "ViewParameter" and d["id"] in dic
                  and type(dic[d["id"]].parameter).__name__ == "Parameter" and not V]
